@@ -9,6 +9,11 @@ def cmd(pid, tier):
 
 # id -> (category, engine, technique, level text, level note, design ref)
 CHECKS = {
+ "C12": ("exploration", "ENUM+SCHED",
+   "bounded-exhaustive enumeration of server reply sequences for batches (all permutations/subsets/duplications/foreign ids) through both clients against a positional reference; SCHED over delivery orders of concurrent batches",
+   "For n = 1..3 (thorough 4) every reply sequence of length 0..n+1 over {ok/err answer for entry j, foreign id, non-numeric id} x id kind is delivered to the async client (CLI-MEM, real background tasks) and to the HTTP client (scripted tower layer, real HttpClient); result length, positional correctness of every entry, success/failure counts and into_ok() are judged; plus all delivery orders of 2 batches + calls in flight with reversed reply arrays.",
+   "A fresh client per case (ids start at 0); replies longer than n+1 items not covered.",
+   "DESIGN.md §6 C12"),
  "C03": ("model_checking", "SCHED",
    "stateless DFS over all release orders of front-end operations, server answers (every permutation, duplication, omission) and the client's background tasks under a controlled scheduler",
    "For 2-3 concurrent operations out of {request, subscribe, batch, notification} x per-message answer pattern {ok, error, omitted, twice} x extra server messages {stray notifications, never-sent id, packed array} x id kind, every front-end start and every delivery is a scheduling point; the whole schedule tree is explored when it has <= 6k (thorough 300k) executions, else all schedules with <= 2 (thorough 3) deviations. On every execution each completed future must hold the payload of the delivered message whose id equals the id in that call's own wire bytes, must not complete before that delivery, an unanswered call stays pending, and RestartNeeded only appears after a message that matches nothing pending. The client's wire output is checked for JSON-RPC 2.0 well-formedness.",
